@@ -177,8 +177,9 @@ PrefixPause(ST, s, segcuts) ==
 
 (* an earlier pause of this segment came directly after a lone sign, a word follows *)
 SignPause(C, ST, s, segcuts) ==
-    \E e \in segcuts : ST[s][e].lt = "minus" /\ ST[s][e].m = "code"
-                        /\ FirstNonBlank(C.cls, e + 1, Len(C.cls)) = "a"
+    \E e \in segcuts : /\ ST[s][e].lt = "minus" /\ ST[s][e].m = "code"
+                        /\ \/ ST[s][e].at \in {"sym", "dsym"}      \* the word has begun
+                           \/ ST[s][e].at = "none" /\ FirstNonBlank(C.cls, e + 1, Len(C.cls)) = "a"
 
 RECURSIVE PieceV(_, _, _, _, _, _, _, _, _)
 PieceV(C, run, j, s, prevLast, first, DOn, segcuts, ST) ==
